@@ -973,7 +973,7 @@ def _strategies():
             f = draw(st.sampled_from([0.5, 1.5, 0.99]))
             bbox = (bbox[0], bbox[1], bbox[0] + (bbox[2] - bbox[0]) * f, bbox[1] + (bbox[3] - bbox[1]) * f)
         size = draw(st.sampled_from([(256, 256), (256, 256), (128, 128), (300, 200), (64, 64)]))
-        srs = 'EPSG:3857'
+        srs = draw(st.sampled_from(['EPSG:3857', 'EPSG:3857', 'EPSG:900913']))
         if draw(st.integers(0, 7)) == 0:
             srs = 'EPSG:4326'
             bbox = draw(st.sampled_from([(-180.0, -85.0, 180.0, 85.0), (0.0, 0.0, 90.0, 60.0), (-10.0, 35.0, 30.0, 65.0)]))
@@ -1170,7 +1170,38 @@ def random_shard(shard, nshards, seed, tier):
     return st_
 
 
+def escape_matrix(stats):
+    """Deterministic enumeration: the canonical traversal through a dimension VALUE and through a dimension
+    NAME against every configured layer (WMS GetMap, fresh deployment).  Records which layers / backends
+    let the request leave the cache directory in stats.extra and returns the violations."""
+    bb = '-20037508.342789244,-20037508.342789244,20037508.342789244,20037508.342789244'
+    base = ('SERVICE=WMS&VERSION=1.1.1&REQUEST=GetMap&STYLES=&SRS=EPSG:900913&BBOX=' + bb +
+            '&WIDTH=256&HEIGHT=256&FORMAT=image/png&LAYERS=')
+    env = Env()
+    out = []
+    matrix = collections.OrderedDict()
+    try:
+        for layer in env.layer_cache:
+            if layer == 'second':
+                continue
+            row = {'backend': env.backends[env.layer_cache[layer]], 'declares_dimensions': layer.endswith('_dim')}
+            for vec, extra in (('value', '&TIME=a/../../../../x'), ('name', '&DIM_a/../../../../x=1')):
+                case = {'app': 'single', 'kind': 'wms.getmap', 'path': '/service', 'qs': base + layer + extra,
+                        'attack': ['dimension-' + ('value' if vec == 'value' else 'key')], 'family': ['escape-matrix']}
+                v = run_case(env, case, stats, open_sigs=())
+                row[vec] = v.signature if v is not None else None
+                if v is not None:
+                    out.append(v)
+                    env.repair()
+            matrix[layer] = row
+    finally:
+        env.close()
+    stats.extra['dimension_escape_matrix'] = matrix
+    return out
+
+
 def run(tier, seed, stats):
+    stats.violations.extend(escape_matrix(stats))
     stats.merge(core.parallel(random_shard, 16, seed, tier))
     if tier == 'thorough':
         stats.merge(fuzz_campaign(seed))
@@ -1193,7 +1224,178 @@ def replay(case, stats):
         env.close()
 
 
-def fuzz_campaign(seed):
+
+# ------------------------------------------------------------------------------------------------
+# coverage-guided campaign on raw (path, query) bytes (thorough tier)
+
+FUZZ_WORKERS = 16
+FUZZ_RUNS = 30000          # executions per worker
+
+
+def _fuzz_seed_inputs():
+    bb = '-20037508.342789244,-20037508.342789244,20037508.342789244,20037508.342789244'
+    gm = ('/service?SERVICE=WMS&VERSION=1.1.1&REQUEST=GetMap&STYLES=&SRS=EPSG:3857&BBOX=' + bb +
+          '&WIDTH=256&HEIGHT=256&FORMAT=image/png&LAYERS=%s&TIME=%s')
+    out = []
+    for layer in ('tc', 'tc_dim', 'mp_dim', 'tms', 'reverse_tms_dim', 'quadkey', 'arcgis_dim', 'sqlite', 'mbtiles', 'gpkg',
+                  'gpkgl', 'compact1', 'compact2', 'link', 'dir_dim', 'names', 'meta_dim', 'chain', 'nostore_dim'):
+        out.append(gm % (layer, TIME_VALUES[0]))
+    out.append(gm % ('tc', 'a/b') + '&ELEVATION=0&DIM_CUSTOM=a')
+    out.append('/service?SERVICE=WMTS&VERSION=1.0.0&REQUEST=GetTile&LAYER=tc_dim&STYLE=default&TILEMATRIXSET=GLOBAL_MERCATOR'
+               '&TILEMATRIX=01&TILECOL=0&TILEROW=1&FORMAT=image/png&TIME=' + TIME_VALUES[1] + '&ELEVATION=1000')
+    out.append('/wmts/tms_dim/GLOBAL_MERCATOR/%s/1000/1/0/0.png' % TIME_VALUES[2])
+    out.append('/wmts/mbtiles/GLOBAL_MERCATOR/default/default/0/0/0.png')
+    out.append('/tms/1.0.0/mp_dim/EPSG900913/1/1/0.png')
+    out.append('/tiles/sqlite/EPSG900913/0/0/0.png?origin=nw')
+    out.append('/kml/tc/EPSG900913/0/0/0.kml')
+    out.append('/kml/tc/EPSG900913/1/0/1.png')
+    out.append('/demo/static/site.css')
+    out.append('/demo/?wms_layer=tc&format=png&srs=EPSG:3857')
+    out.append('/service?SERVICE=WMS&VERSION=1.1.1&REQUEST=GetLegendGraphic&LAYER=tc&FORMAT=image/png')
+    out.append('/service?SERVICE=WMS&VERSION=1.1.1&REQUEST=GetFeatureInfo&LAYERS=tc&QUERY_LAYERS=tc&STYLES=&SRS=EPSG:3857&BBOX=' + bb +
+               '&WIDTH=256&HEIGHT=256&FORMAT=image/png&X=10&Y=20&INFO_FORMAT=text/plain')
+    res = [b'S' + x.encode() for x in out]
+    res += [b'M/app' + x.encode() for x in out[:6]] + [b'M/second/tms/1.0.0/second/EPSG900913/0/0/0.png', b'M/']
+    return res
+
+
+def _fuzz_dictionary():
+    toks = set()
+    for v in ATTACK_VALUES + LAYER_ATTACKS + APP_ATTACKS + ATTACK_INTS + _all_layers() + GRID_NAMES + TIME_VALUES:
+        if 0 < len(v.encode('utf-8', 'surrogatepass')) <= 64:
+            toks.add(v.encode('utf-8', 'surrogatepass'))
+            toks.add(urllib.parse.quote(v, safe='').encode())
+    for v in ('TIME=', 'ELEVATION=', 'DIM_', 'DIM_CUSTOM=', 'LAYERS=', 'LAYER=', 'REQUEST=GetMap', 'REQUEST=GetTile', 'SERVICE=WMTS',
+              'SERVICE=WMS', 'TILED=true', 'TILEMATRIXSET=', 'TILEMATRIX=', 'TILECOL=', 'TILEROW=', 'FORMAT=image/png', '/service?',
+              '/wmts/', '/tms/1.0.0/', '/tiles/', '/kml/', '/demo/static/', '/app/', '/second/', '../', '/../', '..%2f', '%2e%2e',
+              '%00', '&', '=', '/', '{ROOT}', '{ROOTREL}', '.png', '.jpeg', '.kml', 'origin=nw', 'QUERY_LAYERS=', 'default'):
+        toks.add(v.encode())
+    lines = []
+    for t in sorted(toks):
+        lines.append('"' + ''.join('\\x%02x' % b for b in t) + '"')
+    return '\n'.join(lines) + '\n'
+
+
+def _fuzz_case(data):
+    """raw bytes -> case: first byte 'M' -> MultiMapProxy; the rest is <path>[?<query>]"""
+    multi = data[:1] == b'M'
+    body = data[1:]
+    path, _, query = body.partition(b'?')
+    return {'app': 'multi' if multi else 'single', 'kind': 'raw', 'attack': ['raw-bytes'],
+            'path': path.decode('utf-8', 'surrogateescape'), 'qs': query.decode('latin-1')}
+
+
+def fuzz_worker(outdir, index, seed, runs):
+    """Body of one campaign process (needs atheris on sys.path); writes <outdir>/worker-<index>.json."""
+    import atheris
+    import traceback
+    with atheris.instrument_imports(include=['mapproxy']):
+        import mapproxy.wsgiapp      # noqa: F401
+        import mapproxy.multiapp     # noqa: F401
+        import mapproxy.config.loader    # noqa: F401
+        import mapproxy.service.demo     # noqa: F401
+        import mapproxy.service.kml      # noqa: F401
+        import mapproxy.service.wmts     # noqa: F401
+        import mapproxy.cache.compact    # noqa: F401
+        import mapproxy.cache.geopackage  # noqa: F401
     st_ = core.Stats()
-    st_.notes['atheris-campaign-not-built-yet'] += 1
+    open_sigs = _open_signatures()
+    state = {'env': None, 'n': 0}
+    result = os.path.join(outdir, 'worker-%d.json' % index)
+
+    def dump(error=None):
+        rec = {'evaluations': st_.evaluations, 'nontrivial': sorted(st_.nontrivial), 'classes': dict(st_.classes),
+               'excluded': dict(st_.excluded), 'notes': dict(st_.notes), 'samples': st_.samples,
+               'violations': [v.as_dict() for v in st_.violations], 'error': error, 'execs': state['n']}
+        with open(result + '.tmp', 'w') as f:
+            json.dump(rec, f)
+        os.replace(result + '.tmp', result)
+
+    def one(data):
+        try:
+            if state['env'] is None:
+                state['env'] = Env()
+            env = state['env']
+            if env.dirty:
+                env.repair()
+            state['n'] += 1
+            v = run_case(env, _fuzz_case(data), st_, open_sigs)
+            if v is not None and len(st_.violations) < 40 and v.signature not in set(x.signature for x in st_.violations):
+                st_.violations.append(v)
+                dump()
+            if state['n'] % 1000 == 0 or state['n'] >= runs:
+                dump()
+        except BaseException:
+            dump(error=traceback.format_exc())
+            if state['env'] is not None:
+                state['env'].close()
+            os._exit(3)
+
+    corpus = os.path.join(outdir, 'corpus-%d' % index)
+    os.makedirs(corpus)
+    for i, d in enumerate(_fuzz_seed_inputs()):
+        with open(os.path.join(corpus, 'seed-%03d' % i), 'wb') as f:
+            f.write(d)
+    dict_file = os.path.join(outdir, 'dict-%d.txt' % index)
+    with open(dict_file, 'w') as f:
+        f.write(_fuzz_dictionary())
+    import atexit
+
+    def finish():
+        dump()
+        if state['env'] is not None:
+            state['env'].close()
+    atexit.register(finish)
+    atheris.Setup([sys.argv[0], corpus, '-dict=' + dict_file, '-runs=%d' % runs, '-seed=%d' % (seed % 2 ** 31 or 1),
+                   '-max_len=700', '-timeout=60', '-rss_limit_mb=4096', '-verbosity=0', '-close_fd_mask=3'], one)
+    atheris.Fuzz()
+
+
+def fuzz_campaign(seed, workers=None, runs=None):
+    st_ = core.Stats()
+    workers = workers or int(os.environ.get('VERIF_C09_FUZZ_WORKERS', FUZZ_WORKERS))
+    runs = runs or int(os.environ.get('VERIF_C09_FUZZ_RUNS', FUZZ_RUNS))
+    deps = os.path.join(VERIF_DIR, '.deps')
+    env = dict(os.environ)
+    env['PYTHONPATH'] = os.pathsep.join([deps, VERIF_DIR] + ([env['PYTHONPATH']] if env.get('PYTHONPATH') else []))
+    probe = subprocess.run([sys.executable, '-c', 'import atheris'], env=env, capture_output=True)
+    if probe.returncode != 0:
+        st_.notes['atheris-not-importable-campaign-skipped'] += 1
+        return st_
+    outdir = tempfile.mkdtemp(prefix='vc09-fuzz-')
+    try:
+        procs = []
+        for i in range(workers):
+            cmd = [sys.executable, '-c',
+                   'import sys; from vcheck.props import c09_sandbox as m; m.fuzz_worker(sys.argv[1], int(sys.argv[2]), '
+                   'int(sys.argv[3]), int(sys.argv[4]))', outdir, str(i), str(core.derive_seed(seed, 'fuzz', i)), str(runs)]
+            log = open(os.path.join(outdir, 'log-%d.txt' % i), 'w')
+            procs.append((subprocess.Popen(cmd, env=env, cwd=VERIF_DIR, stdout=log, stderr=subprocess.STDOUT), log))
+        for p, log in procs:
+            p.wait()
+            log.close()
+        for i, (p, _log) in enumerate(procs):
+            path = os.path.join(outdir, 'worker-%d.json' % i)
+            if not os.path.exists(path):
+                with open(os.path.join(outdir, 'log-%d.txt' % i)) as f:
+                    raise core.HarnessError('atheris worker %d left no result (exit %s):\n%s' % (i, p.returncode, f.read()[-3000:]))
+            with open(path) as f:
+                rec = json.load(f)
+            if rec.get('error'):
+                raise core.HarnessError('atheris worker %d failed:\n%s' % (i, rec['error']))
+            w = core.Stats()
+            w.evaluations = rec['evaluations']
+            w.nontrivial = set(rec['nontrivial'])
+            w.classes.update(dict(('fuzz/' + k, v) for k, v in rec['classes'].items()))
+            w.excluded.update(rec['excluded'])
+            w.notes.update(rec['notes'])
+            w.samples = rec['samples'][:2]
+            for v in rec['violations']:
+                w.violations.append(core.Violation(v['signature'], v['message'], v['case']))
+            w.notes['atheris-executions'] += rec['execs']
+            st_.merge(w)
+        st_.extra['atheris'] = '%d workers x %d runs on raw (path, query) bytes, dictionary of %d tokens' % (
+            workers, runs, _fuzz_dictionary().count('\n'))
+    finally:
+        shutil.rmtree(outdir, ignore_errors=True)
     return st_
